@@ -76,6 +76,12 @@ type c13Op struct {
 	Fault string `json:"f,omitempty"`     // fault plan
 	Defer bool   `json:"defer,omitempty"` // leave the interrupted operation pending: the sweep runs at the next `sweep` op / at the end
 	Retry bool   `json:"retry,omitempty"` // after the operation was undone, repeat it without a fault: it must succeed
+	// Err is the KIND of error the failing publish returns (pub_fail, pub_fail_tx2_fail): "" plain | canceled | deadline
+	// (fmt.Errorf %w context.Canceled / DeadlineExceeded) | stoabs_canceled | stoabs_deadline (the shape go-stoabs produces when the
+	// request context ends before the bbolt commit) | join (errors.Join(plain, DeadlineExceeded)) | cancel_before | cancel_during
+	// (the request context is REALLY cancelled before the deciding Commit is called / inside CreateTransaction; the network
+	// then refuses with the stoabs-wrapped ctx.Err(), as the real one does).
+	Err string `json:"err,omitempty"`
 	// The grace period (Rollback leaves alone what is younger than a minute):
 	Sweep string `json:"sweep,omitempty"` // unfaulted op: Rollback fires WHILE the operation is in flight, "pre" = after tx1 before the publish, "post" = after the publish before tx2
 	Young int    `json:"young,omitempty"` // seconds (<60): the pending rows are made this old and swept first; they must not be touched
@@ -119,6 +125,9 @@ func c13Gen(t *rapid.T) c13Case {
 				op.Retry = rapid.Bool().Draw(t, "retry")
 				op.Young = rapid.SampledFrom([]int{0, 0, 1, 30, 59}).Draw(t, "young")
 				op.Age = rapid.SampledFrom([]int{0, 61, 62, 3600}).Draw(t, "age")
+				if op.Fault == "pub_fail" || op.Fault == "pub_fail_tx2_fail" {
+					op.Err = rapid.SampledFrom(c13ErrKinds).Draw(t, "errkind")
+				}
 			} else if i > 0 && rapid.IntRange(0, 99).Draw(t, "inflight") < 25 {
 				op.Sweep = rapid.SampledFrom([]string{"pre", "post"}).Draw(t, "sweepAt")
 				op.Young = rapid.SampledFrom([]int{0, 1, 30, 59}).Draw(t, "young")
@@ -162,6 +171,20 @@ func c13Enum(yield func(c13Case) bool) {
 				a.Ops = append(a.Ops, target, c13Op{K: "svc_add", Subj: 0, Arg: 2}, c13Op{K: "vm_add", Subj: 0})
 				if !yield(a) {
 					return
+				}
+				if f == "pub_fail" || f == "pub_fail_tx2_fail" {
+					// the same failing publish with every other KIND of error (context cancellation / deadline in the shapes the
+					// real stack produces, and a really cancelled request context)
+					for _, kind := range c13ErrKinds[1:] {
+						tg := target
+						tg.Err = kind
+						e := c13Case{Methods: methods}
+						e.Ops = append(e.Ops, prefix...)
+						e.Ops = append(e.Ops, tg, c13Op{K: "svc_add", Subj: 0, Arg: 2})
+						if !yield(e) {
+							return
+						}
+					}
 				}
 				if f == "" {
 					// the sweep fires while the (unfaulted) operation is in flight, before / after the publish, with the
@@ -218,6 +241,8 @@ type c13Script struct {
 	published bool // a did:nuts transaction of the current operation reached the didstore
 	failTx2   bool // armed: every SQL delete fails
 	webOnly   bool
+	errKind   string           // kind of the injected publish error
+	cancel    func()           // cancels the request context of the running operation
 	sweepAt   string           // "pre" | "post": call hook at that point of the deciding Commit
 	hook      func(pos string) // runs Rollback while the operation is in flight (no database transaction is open there)
 }
@@ -231,11 +256,44 @@ func (s *c13Script) begin(plan string) {
 func (s *c13Script) end() (fired, published, reached bool) {
 	s.mu.Lock()
 	defer s.mu.Unlock()
-	s.plan, s.failTx2, s.sweepAt = "", false, ""
+	s.plan, s.failTx2, s.sweepAt, s.errKind, s.cancel = "", false, "", "", nil
 	return s.fired, s.published, s.reached
 }
 
 var errC13Publish = errors.New("C13 injected: network refuses the transaction")
+
+var c13ErrKinds = []string{"", "canceled", "deadline", "stoabs_canceled", "stoabs_deadline", "join", "cancel_before", "cancel_during"}
+
+// c13CtxRefusal is what network.CreateTransaction returns when the request context has ended: dag.State.Add runs in a
+// go-stoabs write transaction, which checks ctx.Err() before committing and returns it as a database error.
+func c13CtxRefusal(err error) error {
+	return fmt.Errorf("unable to add newly created transaction to State: %w", stoabs.DatabaseError(err))
+}
+
+func c13PublishError(kind string, ctx context.Context, cancel func()) error {
+	switch kind {
+	case "canceled":
+		return fmt.Errorf("C13 injected: client went away: %w", context.Canceled)
+	case "deadline":
+		return fmt.Errorf("C13 injected: request timed out: %w", context.DeadlineExceeded)
+	case "stoabs_canceled":
+		return c13CtxRefusal(context.Canceled)
+	case "stoabs_deadline":
+		return c13CtxRefusal(context.DeadlineExceeded)
+	case "join":
+		return errors.Join(errC13Publish, context.DeadlineExceeded)
+	case "cancel_during":
+		if cancel != nil {
+			cancel()
+		}
+		if ctx.Err() != nil {
+			return c13CtxRefusal(ctx.Err())
+		}
+		return errC13Publish
+	}
+	return errC13Publish
+}
+
 var errC13Tx2 = errors.New("C13 injected: database error in clean-up transaction")
 
 // c13Method delegates everything to the real method manager; it only marks/stops at Commit boundaries.
@@ -262,6 +320,16 @@ func (m c13Method) Commit(ctx context.Context, e orm.DIDChangeLog) error {
 		s.mu.Unlock()
 		if at == "pre" && hook != nil {
 			hook("pre")
+		}
+		s.mu.Lock()
+		cancelNow := (s.plan == "pub_fail" || s.plan == "pub_fail_tx2_fail") && s.errKind == "cancel_before" && !s.webOnly
+		cancel := s.cancel
+		if cancelNow {
+			s.fired = true // even if the method manager gives up before it reaches the network (key lookup with a dead context)
+		}
+		s.mu.Unlock()
+		if cancelNow && cancel != nil {
+			cancel() // the client hangs up after tx1, before the method manager is asked to commit
 		}
 	}
 	if m.decider && s.webOnly {
@@ -315,7 +383,7 @@ var _ network.Transactions = (*c13Net)(nil)
 func (n *c13Net) CreateTransaction(ctx context.Context, tpl network.Template) (dag.Transaction, error) {
 	s := n.s
 	s.mu.Lock()
-	plan := s.plan
+	plan, kind, cancel := s.plan, s.errKind, s.cancel
 	s.reached = true
 	switch plan {
 	case "stop_pre", "pub_fail", "pub_fail_tx2_fail":
@@ -326,7 +394,14 @@ func (n *c13Net) CreateTransaction(ctx context.Context, tpl network.Template) (d
 	case "stop_pre":
 		panic(c13Stop{})
 	case "pub_fail", "pub_fail_tx2_fail":
-		return nil, errC13Publish
+		if kind == "cancel_before" && ctx.Err() != nil {
+			return nil, c13CtxRefusal(ctx.Err())
+		}
+		return nil, c13PublishError(kind, ctx, cancel)
+	}
+	if ctx.Err() != nil {
+		// like the real network: nothing is added once the request context has ended
+		return nil, c13CtxRefusal(ctx.Err())
 	}
 	// as network.CreateTransaction: additional prevs must be known, prevs = head + additional, clock = max+1.
 	// n.mu only guards the in-memory DAG (never held while signing: signing needs the single SQL connection).
@@ -903,11 +978,15 @@ func c13Contains(l []string, s string) bool {
 func (fx *c13Fix) invoke(p *c13Pending, plan string) (ret any, err error, stopped, fired, published bool) {
 	defer func() { p.reached = fx.lastReached }()
 	fx.script.begin(plan)
-	if fx.inflight != "" {
-		fx.script.mu.Lock()
-		fx.script.sweepAt = fx.inflight
-		fx.script.mu.Unlock()
+	ctx, cancel := context.WithCancel(fx.ctx) // the request context of this call
+	defer cancel()
+	fx.script.mu.Lock()
+	fx.script.sweepAt = fx.inflight
+	fx.script.cancel = cancel
+	if plan != "" {
+		fx.script.errKind = p.op.Err
 	}
+	fx.script.mu.Unlock()
 	func() {
 		defer func() {
 			if r := recover(); r != nil {
@@ -930,18 +1009,18 @@ func (fx *c13Fix) invoke(p *c13Pending, plan string) (ret any, err error, stoppe
 			}
 			var docs []did.Document
 			var name string
-			docs, name, err = fx.mgr.Create(fx.ctx, opts)
+			docs, name, err = fx.mgr.Create(ctx, opts)
 			ret = []any{docs, name}
 		case "svc_add":
-			ret, err = fx.mgr.CreateService(fx.ctx, p.subj.name, *p.svc)
+			ret, err = fx.mgr.CreateService(ctx, p.subj.name, *p.svc)
 		case "svc_upd":
-			ret, err = fx.mgr.UpdateService(fx.ctx, p.subj.name, ssi.MustParseURI("#"+p.target), *p.svc)
+			ret, err = fx.mgr.UpdateService(ctx, p.subj.name, ssi.MustParseURI("#"+p.target), *p.svc)
 		case "svc_del":
-			err = fx.mgr.DeleteService(fx.ctx, p.subj.name, ssi.MustParseURI("#"+p.target))
+			err = fx.mgr.DeleteService(ctx, p.subj.name, ssi.MustParseURI("#"+p.target))
 		case "vm_add":
-			ret, err = fx.mgr.AddVerificationMethod(fx.ctx, p.subj.name, orm.AssertionKeyUsage())
+			ret, err = fx.mgr.AddVerificationMethod(ctx, p.subj.name, orm.AssertionKeyUsage())
 		case "deactivate":
-			err = fx.mgr.Deactivate(fx.ctx, p.subj.name)
+			err = fx.mgr.Deactivate(ctx, p.subj.name)
 		}
 	}()
 	fired, published, fx.lastReached = fx.script.end()
@@ -1050,6 +1129,7 @@ func (fx *c13Fix) step(i int, op c13Op) {
 		}
 		fx.script.mu.Unlock()
 	}
+	logBefore := fx.changeLogCount()
 	ret, err, stopped, fired, published := fx.invoke(p, op.Fault)
 	fx.inflight = ""
 	if fx.bad {
@@ -1067,6 +1147,13 @@ func (fx *c13Fix) step(i int, op c13Op) {
 		if fired {
 			fx.faultSeen = true
 			x.Classf("fault:%s:%s", op.Fault, op.K)
+			if op.Fault == "pub_fail" || op.Fault == "pub_fail_tx2_fail" {
+				kind := op.Err
+				if kind == "" {
+					kind = "plain"
+				}
+				x.Classf("errkind:%s:%s:fails=nuts", kind, op.K)
+			}
 		} else {
 			x.Classf("fault-not-reached:%s", op.Fault)
 		}
@@ -1096,6 +1183,13 @@ func (fx *c13Fix) step(i int, op c13Op) {
 		x.Classf("sync-error:%s", op.K)
 		if op.Fault == "" {
 			x.Classf("natural-error:%s", op.K)
+		}
+		if fx.changeLogCount() > logBefore {
+			// the operation reported the failure but left its change records: "at the latest after the rollback sweep"
+			x.Class("sync-error-left-to-sweep")
+			fx.pending = append(fx.pending, p)
+			fx.sweepAged(fmt.Sprintf("after op %d (error %q)", i, c13Short(err)), op.Young, op.Age)
+			return
 		}
 		fx.settle(p, published, nil, fmt.Sprintf("op %d returned error %q, published=%v", i, c13Short(err), published))
 		if !fx.bad && !published && fired && p.reached && op.Retry {
@@ -1136,7 +1230,7 @@ func (fx *c13Fix) retry(p *c13Pending, i int) {
 	}
 	q.preList = fx.list()
 	keysBefore := fx.keySet()
-	ret, err, _, _, _ := fx.invoke(q, "")
+	ret, err, _, _, published := fx.invoke(q, "")
 	for k := range fx.keySet() {
 		if !keysBefore[k] {
 			q.newKids = append(q.newKids, k)
@@ -1145,6 +1239,10 @@ func (fx *c13Fix) retry(p *c13Pending, i int) {
 	q.gained = fx.gained(q.preList)
 	if err != nil {
 		fx.violate("retry-fails:"+p.op.K, "op %d (%s) was undone after fault %s, but the repeated attempt fails: %v", i, p.op.K, p.op.Fault, err)
+		return
+	}
+	if !published {
+		fx.violate("retry-does-not-publish:"+p.op.K, "op %d (%s) failed to publish (fault %s/%s); the repeated attempt reports success but published nothing", i, p.op.K, p.op.Fault, p.op.Err)
 		return
 	}
 	fx.settle(q, true, ret, fmt.Sprintf("retry of op %d", i))
